@@ -10,6 +10,10 @@ func StdoutReporter(msg string) {
 
 func Parameters(extraParameters map[string]string) PipelineOption {
 	return func(pipeline *Pipeline) {
+		if pipeline.Parameters == nil {
+			pipeline.Parameters = make(map[string]string, len(extraParameters))
+		}
+
 		for key, value := range extraParameters {
 			pipeline.Parameters[key] = value
 		}
